@@ -366,6 +366,18 @@ def loops(ctx):
                       'iterator chain at line %d over an input-derived range is consumed by %s, which neither stops at '
                       'the first error nor avoids pre-sizing from the range' % (c.ln, why),
                       detail_ok='consumed by ' + why, where=c.where())
+        # (3) any other adaptor applied directly to an input-derived range neither stops at the first failed read nor is
+        #     examined above: `(0..n).flat_map(|_| de.read())` flattens every Err away and spins n times on a truncated input
+        for c in body.calls(r'^std::iter::Iterator::'):
+            if c.name in ('map', 'next') or not re.match(r"^(&('\w+ )?(mut )?)?std::ops::Range(Inclusive)?<", c.self_ty or ''):
+                continue
+            srcs, _ = TA.sources(body, [c.args[0]]) if c.args else ([], None)
+            if not srcs:
+                continue
+            n += 1
+            ctx.bad(body.key, 'chain(range<-input):%s' % c.name,
+                    'an input-derived range is consumed through Iterator::%s (line %d), which does not stop at the first failed read: '
+                    'a short input announcing a huge count keeps the reader busy for that many iterations' % (c.name, c.ln), c.where())
     ctx.floor(n, 10, 'input-bounded loops and chains')
 
 
@@ -516,6 +528,27 @@ PANIC_EXCEPTIONS = [
 ]
 
 
+_TAINT = {}
+
+
+def tainted_arith(F, body, ps):
+    """An operand of the checked arithmetic derives from an integer read from untrusted input (E-TAINT), unsanitised."""
+    if id(F) not in _TAINT:
+        _TAINT.clear()
+        _TAINT[id(F)] = Taint(F)
+    TA = _TAINT[id(F)]
+    cond = ps.term['cond']
+    l = op_place(cond)['l'] if is_place(cond) else None
+    for d in ([d for d in body.defs().get(l, []) if d.kind == 'assign'] if l is not None else []):
+        if d.rv['k'] == 'bin' and d.rv['op'].endswith('WithOverflow'):
+            for o in (d.rv['a'], d.rv['b']):
+                if is_place(o):
+                    srcs, _sl = TA.sources(body, [o])
+                    if srcs:
+                        return True
+    return False
+
+
 def unsized_array_len(body, op):
     """N when the slice operand is a plain (re)borrow / unsizing of a whole `[T; N]` value, else None."""
     l = op_local(op)
@@ -545,6 +578,8 @@ def discharge(ctx, F, ps):
     body = ps.body
     if ps.kind == 'ptrcheck':
         return 'compiler-inserted reference validity check (debug assertions), not a source-level panic'
+    if ps.kind == 'overflow' and ps.detail in ('Add', 'Mul', 'Sub') and ps.term is not None and tainted_arith(F, body, ps):
+        return None       # arithmetic on an integer read from the input, not yet bounded by the remaining input
     if ps.kind == 'overflow' and ps.detail == 'Add':
         # pointer-sized or wider (narrower integers carry their type in the detail, see lib.panic_sites): a sum of in-memory
         # lengths / byte counts / loop counters cannot exceed the address space
